@@ -20,6 +20,7 @@ import (
 	"errors"
 	"fmt"
 	"math"
+	"sync/atomic"
 )
 
 // XferFilter handles byte stream of message when transfer.
@@ -44,6 +45,28 @@ var xferFilterMap = struct {
 
 // ErrXferPipeTooLong error
 var ErrXferPipeTooLong = errors.New("The length of transfer pipe cannot be bigger than 255")
+
+// ErrExceedUnpackLimit is returned by a filter whose OnUnpack output would exceed the unpack limit.
+var ErrExceedUnpackLimit = errors.New("size of unpacked data exceeds limit")
+
+// unpackLimit bounds what a filter may produce on unpacking (an expanding filter such as gzip
+// otherwise turns a small frame into an arbitrarily large buffer); 0 means the default of 1GB.
+// The socket package keeps it equal to the message size limit.
+var unpackLimit uint32
+
+// SetUnpackLimit sets the maximum size of the data a filter may produce on unpacking.
+// If maxSize<=0, set it to 1GB.
+func SetUnpackLimit(maxSize uint32) {
+	atomic.StoreUint32(&unpackLimit, maxSize)
+}
+
+// UnpackLimit returns the maximum size of the data a filter may produce on unpacking.
+func UnpackLimit() uint32 {
+	if n := atomic.LoadUint32(&unpackLimit); n > 0 {
+		return n
+	}
+	return (1 << 20) * 1024
+}
 
 // Reg registers transfer filter.
 func Reg(xferFilter XferFilter) {
